@@ -17,6 +17,7 @@ import (
 	legacyoauth "github.com/nuts-foundation/nuts-node/auth/services/oauth"
 	discoveryclient "github.com/nuts-foundation/nuts-node/discovery/api/server/client"
 	"github.com/nuts-foundation/nuts-node/http/client"
+	"github.com/nuts-foundation/nuts-node/vcr/pe"
 	"github.com/nuts-foundation/nuts-node/vdr/didweb"
 
 	"verif/ev"
@@ -79,6 +80,22 @@ var vias = map[string]func(ctx context.Context, strict bool, u string, id did.DI
 	},
 	"iam.PostError": func(ctx context.Context, strict bool, u string, _ did.DID) error {
 		_, err := iamClient(strict).PostError(ctx, oauth.OAuth2Error{Code: oauth.InvalidRequest}, u, "state")
+		return err
+	},
+	"iam.AccessToken": func(ctx context.Context, strict bool, u string, _ did.DID) error {
+		_, err := iamClient(strict).AccessToken(ctx, "code", u, "https://client.verif-lab.nl/cb", "subject", "client", "verifier", false)
+		return err
+	},
+	"iam.RequestObjectByPost": func(ctx context.Context, strict bool, u string, _ did.DID) error {
+		_, err := iamClient(strict).RequestObjectByPost(ctx, u, oauth.AuthorizationServerMetadata{})
+		return err
+	},
+	"iam.OpenIDConfiguration": func(ctx context.Context, strict bool, u string, _ did.DID) error {
+		_, err := iamClient(strict).OpenIDConfiguration(ctx, u)
+		return err
+	},
+	"iam.PostAuthorizationResponse": func(ctx context.Context, strict bool, u string, _ did.DID) error {
+		_, err := iamClient(strict).PostAuthorizationResponse(ctx, vc.VerifiablePresentation{}, pe.PresentationSubmission{}, u, "state")
 		return err
 	},
 	"iam.VerifiableCredentials": func(ctx context.Context, strict bool, u string, _ did.DID) error {
@@ -144,7 +161,26 @@ func outBehaviours() []string {
 	return out
 }
 
-var hostNames = map[string]string{"origin": hostOrigin, "ip": hostIP, "reserved": hostReserved}
+// first-hop hosts: "origin" (public), "ip", "reserved" as before, plus every further host class of hostClasses
+var hostNames = func() map[string]string {
+	m := map[string]string{"origin": hostOrigin, "ip": hostIP, "reserved": hostReserved}
+	for cl, h := range hostClasses {
+		if cl != "public" && cl != "ipv4" {
+			m[cl] = h
+		}
+	}
+	return m
+}()
+
+func hostOrder() []string {
+	out := []string{"origin", "ip", "reserved"}
+	for _, cl := range hostClassOrder {
+		if cl != "public" && cl != "ipv4" {
+			out = append(out, cl)
+		}
+	}
+	return out
+}
 
 func buildOutCases() []outCase {
 	var out []outCase
@@ -155,9 +191,9 @@ func buildOutCases() []outCase {
 	sortStrings(names)
 	for _, strict := range []bool{true, false} {
 		for _, via := range names {
-			for _, host := range []string{"origin", "ip", "reserved"} {
+			for _, host := range hostOrder() {
 				for _, scheme := range []string{"https", "http"} {
-					if via == "didweb.Resolve" && (scheme == "http" || host == "ip") {
+					if via == "didweb.Resolve" && (scheme == "http" || host == "ip" || host == "ipv6" || host == "link-local" || host == "loopback") {
 						continue // a did:web identifier cannot express them (C18 judges the identifier grammar)
 					}
 					for _, b := range outBehaviours() {
@@ -240,7 +276,12 @@ func judgeOut(r *ev.Run, c outCase, res outResult) {
 	if !c.Strict && firstHopPlain && c.Behaviour == "ok" && c.Host == "origin" && acceptedWhenPlain[c.Via] && (res.Err != "" || res.PlainHits == 0) {
 		r.Violation("C20|outbound|plain-http-nonstrict-refused|"+c.Via, fmt.Sprintf("strict mode off: %s refused a plain-HTTP endpoint: %s", c.Via, res.Err), c)
 	}
-	if c.Strict && c.Scheme == "https" && c.Behaviour == "ok" && c.Host != "origin" && res.TLSHits > 0 {
+	// the IAM client applies ParsePublicURL(strict) to the endpoints it is given (they come out of remote metadata, request objects
+	// and authorization requests): in strict mode none of them may be called on an IP literal or a reserved host
+	if c.Strict && strings.HasPrefix(c.Via, "iam.") && c.Host != "origin" && res.TLSHits+res.PlainHits > 0 && c.Behaviour == "ok" {
+		r.Violation("C20|outbound|non-public-host|"+c.Via, fmt.Sprintf("strict mode on: %s called an endpoint on a %s host (%s; requests seen: %v)", c.Via, c.Host, ev.Key(c), res.Hosts), c)
+	}
+	if c.Strict && c.Scheme == "https" && c.Behaviour == "ok" && c.Host != "origin" && res.TLSHits > 0 && !strings.HasPrefix(c.Via, "iam.") {
 		r.Observation(fmt.Sprintf("strict mode on: https endpoints whose host is %s are contacted (the statement names only plain HTTP for outbound requests)", c.Host), nil)
 	}
 }
